@@ -10,6 +10,8 @@ use yata::methods::*;
 #[derive(Clone, Copy, Debug)]
 pub struct Emb(pub u8);
 pub const EMBS: u8 = 11;
+/// an embedding used by the cross-build transcripts only: magnitudes near the top of the range (sums of two values overflow)
+pub const EMB_EXTREME: u8 = 11;
 pub const LINEAR_EMBS: [u8; 3] = [0, 1, 2];
 
 impl Emb {
@@ -18,6 +20,7 @@ impl Emb {
 			0 => 1.0,
 			1 => 1.0 / 4096.0,
 			2 => 8_589_934_592.0,
+			11 => 6e307,
 			_ => f64::NAN,
 		}
 	}
@@ -29,6 +32,7 @@ impl Emb {
 			4 => x * 0.1,
 			5 => x * 333_333.333_333_333_3,
 			// magnitudes whose products under- / overflow (a decaying oscillator late in a stream; a sign test written as a product)
+			11 => x * 6e307,
 			9 => x * 1e-170,
 			10 => x * 1e160,
 			// "ugly" monotone odd tables: full mantissas, irregular gaps (rounding of sums/differences shows)
@@ -397,20 +401,23 @@ pub fn record(args: &[String]) {
 	let mut rng = Rng::new(seed ^ 0x70c);
 	let maxp = maxp();
 	let subjects: &[&str] = match family {
-		"sel" => &["Highest", "Lowest", "HighestLowestDelta", "HighestIndex", "LowestIndex", "SMM", "MadMedian"],
+		"sel" | "selx" => &["Highest", "Lowest", "HighestLowestDelta", "HighestIndex", "LowestIndex", "SMM", "MadMedian"],
 		"cross" => &["CrossAbove", "CrossUnder", "Cross"],
 		_ => &["UpperReversalSignal", "LowerReversalSignal", "ReversalSignal"],
 	};
 	for k in 0..programs {
 		let subject = subjects[(k % subjects.len() as u64) as usize];
-		let emb = Emb(LINEAR_EMBS[rng.below(3) as usize]);
+		let mut emb = Emb(LINEAR_EMBS[rng.below(3) as usize]);
+		if family == "selx" {
+			emb = Emb(EMB_EXTREME);
+		}
 		// YV_TOK_ZEROS: tiny alphabets full of signed zeros and ties, short windows (the corner the medians' binary searches and
 		// the cached extrema are most sensitive to)
 		let zeros = std::env::var("YV_TOK_ZEROS").is_ok();
-		let lim = if zeros { *rng.pick(&[1i64, 1, 2]) } else { *rng.pick(&[2i64, 3, 5, 40, 1000]) };
+		let lim = if family == "selx" { 2 } else if zeros { *rng.pick(&[1i64, 1, 2]) } else { *rng.pick(&[2i64, 3, 5, 40, 1000]) };
 		let negzero = family != "rev" && (zeros || rng.chance(0.5));
 		let p: Vec<u64> = match family {
-			"sel" => {
+			"sel" | "selx" => {
 				let lo = if subject == "MadMedian" { 2 } else { 1 };
 				vec![match if zeros { 3 + rng.below(2) * 4 } else { rng.below(8) } {
 					0 => maxp - 1,
